@@ -4,12 +4,14 @@ import (
 	"context"
 	"errors"
 	"fmt"
+	"log/slog"
 	"os"
 	"regexp"
 	"runtime"
 	"sort"
 	"strings"
 	"sync/atomic"
+	"syscall"
 	"testing"
 	"testing/synctest"
 	"time"
@@ -140,10 +142,18 @@ func (e *sbEngine) do(a sbAction) {
 	}
 }
 
+// violated: a violation of the property under check has been recorded (violations of the other properties served by
+// this engine do not end the case: what follows from them may be this property's concern, e.g. a leaked runner that
+// is later shut down under a request).
 func (e *sbEngine) violated() bool {
 	e.mu.Lock()
 	defer e.mu.Unlock()
-	return len(e.viol) > 0
+	for _, v := range e.viol {
+		if v.prop == e.prop || e.prop == "" {
+			return true
+		}
+	}
+	return false
 }
 
 // drain discharges the proviso of C02 ("loads in flight finish, requests ahead complete") and then lets every keep-alive elapse.
@@ -249,7 +259,7 @@ type sbPendingViol struct {
 	log  []string
 }
 
-func sbRun(t *testing.T, c sbCase) (info sbInfo, viol []sbViolation) {
+func sbRun(t *testing.T, c sbCase, prop string) (info sbInfo, viol []sbViolation) {
 	sbInitFiles()
 	setenv := func(k, v string) {
 		if v == "" {
@@ -266,7 +276,8 @@ func sbRun(t *testing.T, c sbCase) (info sbInfo, viol []sbViolation) {
 	setenv("OLLAMA_GPU_OVERHEAD", "")
 	setenv("OLLAMA_CONTEXT_LENGTH", "")
 
-	e := &sbEngine{c: c, flags: map[string]bool{}}
+	e := &sbEngine{c: c, flags: map[string]bool{}, prop: prop}
+	sbPerturbSeed.Store(c.Perturb)
 	room := uint64(float64(sbFiles.need) * sbRoom[c.Room%len(sbRoom)])
 	for g := 0; g < c.Inventory; g++ {
 		gi := discover.GpuInfo{Library: "metal", Variant: fmt.Sprintf("v%d", g), ID: fmt.Sprint(g)}
@@ -361,6 +372,42 @@ func sbRun(t *testing.T, c sbCase) (info sbInfo, viol []sbViolation) {
 		info.classes = append(info.classes, "bubble_leftover_goroutines")
 	}
 	return info, e.viol
+}
+
+// --------------------------------------------------------------------------------- perturbation
+
+// sbPerturb is installed as the slog handler: the scheduler logs (at debug level) right before and after most of its
+// lock operations, so yielding or pausing inside the handler stretches exactly the windows between them. What happens
+// at a call is a pure function of the case's drawn perturbation seed, the message and the call's ordinal.
+var (
+	sbPerturbSeed  atomic.Uint32
+	sbPerturbCalls atomic.Uint32
+)
+
+type sbPerturb struct{}
+
+func (sbPerturb) Enabled(context.Context, slog.Level) bool { return sbPerturbSeed.Load() != 0 }
+func (sbPerturb) WithAttrs([]slog.Attr) slog.Handler       { return sbPerturb{} }
+func (sbPerturb) WithGroup(string) slog.Handler            { return sbPerturb{} }
+func (sbPerturb) Handle(_ context.Context, r slog.Record) error {
+	seed := sbPerturbSeed.Load()
+	if seed == 0 {
+		return nil
+	}
+	h := seed*2654435761 + sbPerturbCalls.Add(1)*40503
+	for _, b := range []byte(r.Message) {
+		h = (h ^ uint32(b)) * 16777619
+	}
+	switch h >> 28 {
+	case 0, 1:
+		ts := syscall.Timespec{Nsec: int64(20000 + h%180000)} // real time: stretches the window, decides nothing
+		syscall.Nanosleep(&ts, nil)
+	case 2, 3, 4, 5:
+		for i := uint32(0); i < 1+h%8; i++ {
+			runtime.Gosched()
+		}
+	}
+	return nil
 }
 
 // ------------------------------------------------------------------------------------- watchdog
@@ -475,6 +522,9 @@ func sbNontrivial(prop string, c sbCase, info sbInfo) bool {
 func sbTest(t *testing.T, target, prop string) {
 	rec := vfkit.Open(target)
 	defer rec.Flush()
+	if os.Getenv("VERIF_VERBOSE") == "" {
+		slog.SetDefault(slog.New(sbPerturb{}))
+	}
 	var curCase atomic.Pointer[sbCase]
 	sbWatchdog(rec, target, prop, func() (sbCase, bool) {
 		if p := curCase.Load(); p != nil {
@@ -485,7 +535,7 @@ func sbTest(t *testing.T, target, prop string) {
 	check := func(c sbCase) (sbInfo, error) {
 		curCase.Store(&c)
 		rec.Current(target, c)
-		info, viol := sbRun(t, c)
+		info, viol := sbRun(t, c, prop)
 		for _, v := range viol {
 			if v.prop == prop {
 				tail := info.log
